@@ -23,7 +23,7 @@ EXACT = 'exact'
 
 
 class Op:
-    def __init__(self, name, call, ref, cases, tol=EXACT, skip_outs=(), family='misc', n=(40, 600), inplace=False):
+    def __init__(self, name, call, ref, cases, tol=EXACT, skip_outs=(), family='misc', n=(80, 600), inplace=False):
         self.name = name          # bucket name
         self.call = call          # call(form, params, *objects) -> result or tuple of results
         self.ref = ref            # ref(form, params, *plain objects) -> NumPy result(s)
@@ -290,7 +290,7 @@ def elem_cases(draw, name):
 
 for _n in ELEM:
     reg(Op(_n, (lambda form, q, x, n=_n: ELEM[n][1][form](x)), (lambda form, q, x, n=_n: ELEM[n][2](x)),
-           (lambda n=_n: elem_cases(n)), tol=1e-13, family='elementwise', n=(30, 500)))
+           (lambda n=_n: elem_cases(n)), tol=1e-13, family='elementwise', n=(60, 500)))
 
 
 @st.composite
@@ -319,11 +319,11 @@ def param_cases(draw, name):
 
 
 reg(Op('polygamma', lambda form, q, x: (algopy.special.polygamma if form == 'global' else UTPM.polygamma)(q['n'], x),
-       lambda form, q, x: scipy.special.polygamma(q['n'], x), lambda: param_cases('polygamma'), tol=1e-13, family='elementwise', n=(30, 400)))
+       lambda form, q, x: scipy.special.polygamma(q['n'], x), lambda: param_cases('polygamma'), tol=1e-13, family='elementwise', n=(60, 400)))
 reg(Op('hyperu', lambda form, q, x: (algopy.special.hyperu if form == 'global' else UTPM.hyperu)(q['a'], q['b'], x),
-       lambda form, q, x: scipy.special.hyperu(q['a'], q['b'], x), lambda: param_cases('hyperu'), tol=1e-13, family='elementwise', n=(30, 400)))
+       lambda form, q, x: scipy.special.hyperu(q['a'], q['b'], x), lambda: param_cases('hyperu'), tol=1e-13, family='elementwise', n=(60, 400)))
 reg(Op('botched_clip', lambda form, q, x: (algopy.special.botched_clip if form == 'global' else UTPM.botched_clip)(q['lo'], q['hi'], x),
-       lambda form, q, x: np.clip(x, q['lo'], q['hi']), lambda: param_cases('botched_clip'), tol=EXACT, family='elementwise', n=(30, 400)))
+       lambda form, q, x: np.clip(x, q['lo'], q['hi']), lambda: param_cases('botched_clip'), tol=EXACT, family='elementwise', n=(60, 400)))
 
 
 @st.composite
